@@ -209,6 +209,31 @@ func invalidCorpus() []CorpusReq {
 		r := set(ws, m, "preferenceFunction")
 		out = append(out, CorpusReq{Name: fmt.Sprintf("invalid/unknown-preference-function-%d-with-never-applied-bias", i), Req: withBiases(r, []M{{"name": "fatigue", "applyProbability": 0.0, "props": M{}}}), Valid: false, Rule: "unknown-preference-function-with-bias"})
 	}
+	// a violated range constraint on a later criterion, behind criteria that declare no range / a valid range
+	for pos := 1; pos <= 2; pos++ {
+		for bi, badRange := range []M{{"min": 3.0, "max": 1.0}, {"min": 2.0, "max": 2.0}} {
+			for ei, earlier := range []interface{}{nil, M{"min": 0.0, "max": 5.0}} {
+				r := set(ws, badRange, "criteria", pos, "valuesRange")
+				for k := 0; k < pos; k++ {
+					if earlier != nil {
+						r = set(r, earlier, "criteria", k, "valuesRange")
+					}
+				}
+				out = append(out, CorpusReq{Name: fmt.Sprintf("invalid/values-range-%d-on-criterion-%d-earlier-%d", bi, pos, ei), Req: r, Valid: false, Rule: "inverted-or-empty-values-range-later-criterion"})
+				out = append(out, CorpusReq{Name: fmt.Sprintf("invalid/values-range-%d-on-criterion-%d-earlier-%d-with-reversal", bi, pos, ei), Req: withBiases(r, []M{bias("preferenceReversal", M{"ratio": 0.5})}), Valid: false, Rule: "inverted-or-empty-values-range-later-criterion"})
+			}
+		}
+	}
+	// an unknown ordering name next to sibling options under which the ordering would select nothing
+	for _, name := range []string{"criteriaOmission", "preferenceReversal"} {
+		for si, sib := range []M{{"ratio": 0.0}, {}, {"ratio": 0.0, "min": 0}, {"ratio": 0.2}, {"ratio": 0.9, "max": 0}} {
+			props := M{"ordering": "weakestFirst"}
+			for k, v := range sib {
+				props[k] = v
+			}
+			out = append(out, CorpusReq{Name: fmt.Sprintf("invalid/%s-unknown-ordering-nothing-selected-%d", name, si), Req: withBiases(ws, []M{bias(name, props)}), Valid: false, Rule: "ordering-name-unknown-nothing-selected"})
+		}
+	}
 	for i := range out {
 		out[i].Name = fmt.Sprintf("%s", out[i].Name)
 	}
